@@ -53,9 +53,10 @@ t("list-elem", "[", ", 2]"); t("map-value", '{"a": ', "}"); t("map-key", "{", ":
 
 # a string is a value: element assignment rewrites the VARIABLE, so the target must be assignable; through a call result or a
 # conditional there is no variable to rewrite -- not a provenance effect on a value but the absence of an lvalue
-EXCLUDE = {("assign-index-base", "vs")}
+# a nil slice / map grows by rewriting the variable that holds it, likewise
+EXCLUDE = {("assign-index-base", "vs"), ("assign-index-base", "vns"), ("assign-index-base", "vnm"), ("assign-member", "vnm")}
 
-VARS = ["vi", "vz", "vf", "vs", "vb", "vn", "vl", "vm", "vp", "vc", "vfn", "vg", "vst", "vsp", "vtl", "vmo"]
+VARS = ["vi", "vz", "vf", "vs", "vb", "vn", "vl", "vm", "vp", "vc", "vfn", "vg", "vst", "vsp", "vtl", "vmo", "vns", "vnm", "vnp"]
 
 
 def run(ctx):
@@ -83,7 +84,8 @@ def run(ctx):
     reported = set()
     for r, op in results:
         vlib.tlc_ok(ctx, r, "MC_AnkoProvenance")
-        obs = [o for o in vlib.read_ndjson(op) if (o["t"], o["v"]) not in EXCLUDE]
+        # (x ?? nil) is the identity on every value except a nil of a concrete type, which it turns into the plain nil: not a hop for those
+        obs = [o for o in vlib.read_ndjson(op) if (o["t"], o["v"]) not in EXCLUDE and not (o["v"] in ("vns", "vnm", "vnp") and "nilco" in o["chain"])]
         slim = os.path.join(ctx.work, "prov_obs.ndjson")
         vlib.write_ndjson(slim, [{"got": o["got"], "base": o["base"]} for o in obs])
         rej, total, rr = vlib.validate_lines(ctx, "Trace_AnkoProvenance", "Trace_AnkoProvenance.cfg", [slim], timeout=3000)
